@@ -52,26 +52,41 @@ def run_hostile(pid, tier, seed, level_rule):
             continue
         v.add_report(r, stage)
         reps.append(r)
-        # validate (a bounded prefix of) the recorded executions
-        cap = 1_500_000 if quick else 60_000_000
-        lines = 0
-        with open(tf) as f, open(tf + ".v", "w") as o:
-            run = []
+        # validate the recorded executions: in chunks of whole runs (TLC holds the chunk it validates in memory)
+        chunk_cap = 1_500_000 if quick else 5_000_000
+        max_chunks = 1 if quick else 16
+        chunk_no = 0
+        def flush(lines_buf):
+            nonlocal validated, chunk_no
+            if not lines_buf:
+                return
+            cf = f"{tf}.v{chunk_no}"
+            with open(cf, "w") as o:
+                o.writelines(lines_buf)
+            n, ts = validate_trace(v, "Trace_Hostile.tla", "Trace_Hostile.cfg", cf, splitter="Call")
+            os.remove(cf)
+            validated += n
+            tstats["states"] += ts["states"]
+            tstats["transitions"] += ts["transitions"]
+            chunk_no += 1
+        buf, run = [], []
+        with open(tf) as f:
             for line in f:
                 if '"ev":"Call"' in line and run:
-                    if lines + len(run) > cap:
-                        run = []
-                        break
-                    o.writelines(run)
-                    lines += len(run)
+                    if len(buf) + len(run) > chunk_cap:
+                        flush(buf)
+                        buf = []
+                        if chunk_no >= max_chunks:
+                            run = []
+                            break
+                    buf += run
                     run = []
                 run.append(line)
-            if run and lines + len(run) <= cap:
-                o.writelines(run)
-        n, ts = validate_trace(v, "Trace_Hostile.tla", "Trace_Hostile.cfg", tf + ".v", splitter="Call")
-        validated += n
-        tstats["states"] += ts["states"]
-        tstats["transitions"] += ts["transitions"]
+        if chunk_no < max_chunks:
+            if run and len(buf) + len(run) <= chunk_cap:
+                buf += run
+            flush(buf)
+        os.remove(tf)
     if pid == "C01":
         # every short Quake text line (QuakeText.tla), inside the grammar or not: never a panic
         rq, mq = quake_text(pid, tier, w, v)
